@@ -1071,7 +1071,15 @@ class Node(
                 f"{self.__class__.__name__},  but the saved node has type "
                 f"{inst.__class__.__name__}"
             )
-        self.__setstate__(inst.__getstate__())
+        state = inst.__getstate__()
+        # Who owns this node is not part of what a load restores (`__getstate__` purged
+        # it from the saved state): stay where we are, and let go of the children the
+        # loaded ones are about to replace
+        state["_parent"] = self._parent
+        state["_detached_parent_path"] = self._detached_parent_path
+        for child in self.__dict__.get("_children", {}).values():
+            child._parent = None
+        self.__setstate__(state)
         # The channels in that state were made for `inst`; they are ours now
         for panel in (
             self.inputs,
